@@ -61,7 +61,8 @@ def run(tier, seed):
     tasks = [(m0, s, c) for s in series for c in cfgs]
     # series with several failing patches / several deviations, with the parallel driver under both serial worker orders
     import props.c06 as c06
-    multi = tq.special_series(m0) + [w[1] for w in c06.workloads(tier)[1]]
+    # (a workspace whose real run ends with an output error - .pc unusable - predicts nothing about patches)
+    multi = tq.special_series(m0) + [w[1] for w in c06.workloads(tier)[1] if 'pc-is-a-file' not in getattr(w[1], 'tags', ())]
     tasks += [(m0, s, {'threads': t, 'backup': b, 'quiet': True, 'policy': pol}) for s in multi for t in (1, 2, 3) for b in ('always', None) for pol in ((None,) if t == 1 else (None, 'high'))]
     acc = wsweep.Acc(res)
     for i, r in enumerate(wsweep.pmap(case, tasks)):
